@@ -178,7 +178,7 @@ def run(ctx):
     seeds4[("self", "_pool")] = AV("obj", "pool", truth=True, none=False)
     seeds4[("self", "_original_response")] = AV("obj", "orig", truth=True, none=False)
     roots4 = [exc("builtins.OSError"), exc("http.client.HTTPException"), BASE_TOP]
-    outs4, it4 = run_function(m, rr, _RR(fp_raises=roots4), f"{RS}.HTTPResponse", inline=set(helper_closure(m, [m.method(f"{RS}.HTTPResponse", "release_conn")])), seeds=seeds4)
+    outs4, it4 = run_function(m, rr, _RR(fp_raises=roots4), f"{RS}.HTTPResponse", inline=set(helper_closure(m, [m.method(f"{RS}.HTTPResponse", "release_conn"), m.method(f"{RS}.HTTPResponse", "_error_catcher")])), seeds=seeds4)
     ctx.states += it4.budget.steps
     gives4 = [o for o in outs4 if "put" in _evs(o)]
     ctx.sites(R4, len(gives4), 2, "paths of a body read that hand the connection back")
